@@ -5,8 +5,9 @@ sys.path.insert(0, os.path.dirname(os.path.abspath(__file__)))
 import check
 check.coq_project()
 targets = []
-for p in sorted(glob.glob(os.path.join(check.VERIF, "props", "C*.json"))):
-    pr = json.load(open(p))
+claimed = [c["property_id"] for c in json.load(open(os.path.join(check.VERIF, "MANIFEST.json")))["checks"]]
+for pid in claimed:
+    pr = json.load(open(os.path.join(check.VERIF, "props", pid + ".json")))
     if pr.get("props_file"):
         targets.append(pr["props_file"][:-2] + ".vo")
     targets += [t[:-2] + ".vo" for t in pr.get("extra_coq", [])]
